@@ -88,6 +88,8 @@ type MsgSpec struct {
 	Parts   []PartSpec
 	Embeds  []FileSpec
 	Attach  []FileSpec
+	// Boundary is a predefined boundary (WithBoundary); documented to work for messages with a single multipart only
+	Boundary string
 }
 
 const FixedDate = "Tue, 01 Jan 2030 00:00:00 +0000"
@@ -101,6 +103,9 @@ func (s *MsgSpec) Build() (*mail.Msg, error) {
 		enc = mail.EncodingQP
 	}
 	opts = append(opts, mail.WithEncoding(enc))
+	if s.Boundary != "" {
+		opts = append(opts, mail.WithBoundary(s.Boundary))
+	}
 	m := mail.NewMsg(opts...)
 	m.SetGenHeader(mail.HeaderDate, FixedDate)
 	m.SetGenHeader(mail.HeaderMessageID, FixedMsgID)
@@ -399,6 +404,10 @@ func Describe(m *mail.Msg, s *MsgSpec, cached [3]string, rb []string) string {
 	}
 	for i, f := range m.GetAttachments() {
 		file("T", f, s.Attach[i])
+	}
+	if b := m.GetBoundary(); b != "" {
+		// a predefined boundary takes precedence over the per-type cache for every multipart (getMultipartBoundary)
+		cached = [3]string{b, b, b}
 	}
 	it = append(it, "B"+h(cached[0])+","+h(cached[1])+","+h(cached[2]))
 	it = append(it, "N"+hl(rb))
